@@ -44,6 +44,12 @@ class GenomeWorld:
 			for d in (self.decoy_cwd, self.namesake_dir):
 				dbutil.write_fasta(d / g['rel'], [other], gz=g['name'].endswith('.gz'))
 			g['namesake'] = {'path': self.namesake_dir / g['rel'], 'rel': g['rel'], 'contigs': [other], 'name': g['name']}
+		# staged inputs: every genome also reachable through a symbolic link whose own name differs from the target's
+		# (Nextflow / Snakemake style); a command labels its input by the path it was GIVEN
+		self.link_dir = self.sc.subdir('links')
+		for i, g in enumerate(self.genomes):
+			g['link'] = self.link_dir / f'sample{i}_{g["name"]}'
+			os.symlink(g['path'], g['link'])
 		# a second, different database (other taxonomy, other reference genomes) for "several databases in one process"
 		rng2 = random.Random(seed + 1)
 		self.taxa2 = dbutil.rand_taxonomy(rng2, ntaxa + 1, thr_values=(None, 0.6, 0.8, 0.95, 1.0))
